@@ -888,7 +888,7 @@ def rule_EQ1(ctx):
                 if isinstance(x, ast.Compare) and any(isinstance(o, (ast.Eq, ast.NotEq)) for o in x.ops):
                     for side in [x.left] + x.comparators:
                         for y in ast.walk(side):
-                            if isinstance(y, ast.Attribute) and y.attr in lossy and ast.unparse(y.value) in ('self', 'bs'):
+                            if isinstance(y, ast.Attribute) and y.attr in lossy and ast.unparse(y.value) in (['self'] + f.params()[1:2]):
                                 bad = x
             if bad is not None and 'len(' not in ast.unparse(bad):
                 r.fail(f.key, bad, 'equality is decided on a zero-padded serialisation without the length: bitstrings of different lengths '
@@ -898,7 +898,11 @@ def rule_EQ1(ctx):
     bs = m.classes['BitStore'].methods.get('__eq__')
     if bs is None:
         raise AnalysisError('anchor vanished: BitStore.__eq__')
-    if 'self._bitarray == other._bitarray' not in ast.unparse(bs.node) and 'modified_length' not in ast.unparse(bs.node):
+    # the store-level comparison is between the two bitarrays (whatever the parameter and locals are called)
+    other = bs.params()[1] if len(bs.params()) > 1 else 'other'
+    cmps = [G.expand(bs, x) for x in own_walk(bs.node) if isinstance(x, ast.Compare) and len(x.ops) == 1 and isinstance(x.ops[0], ast.Eq)]
+    whole = any({ast.unparse(x.left), ast.unparse(x.comparators[0])} == {'self._bitarray', f'{other}._bitarray'} for x in cmps)
+    if not whole and 'modified_length' not in ast.unparse(bs.node):
         raise AnalysisError('BitStore.__eq__: comparison form not recognised (needs a human)')
     r.ok('BitStore.__eq__')
     return r
